@@ -293,7 +293,7 @@ func (in *Interp) callBuiltin(f *Builtin, a []Value) Value {
 					in.unspec("huge range")
 				}
 				if i+step < i {
-					in.unspec("range counter overflow")
+					break // the successor is not representable: the range ends here
 				}
 			}
 		} else {
@@ -303,7 +303,7 @@ func (in *Interp) callBuiltin(f *Builtin, a []Value) Value {
 					in.unspec("huge range")
 				}
 				if i-step > i {
-					in.unspec("range counter overflow")
+					break
 				}
 			}
 		}
